@@ -309,6 +309,15 @@ func cmdCheck(args []string) int {
 	ctxs, errs := verifyFuncs(prog, specs)
 	lemmaCtxs := prog.lemmaObligations(props)
 	ctxs = append(ctxs, lemmaCtxs...)
+	if props["C17"] {
+		// storage-key templates: extracted from every ConcatKey call of the code base on every run
+		keyCtxs, err := prog.keyObligations(*repo, *verif)
+		if err != nil {
+			fmt.Fprintln(os.Stderr, "key extraction error:", err)
+			return reportBroken(*verif, []string{"C17"}, *tier, seed, "key templates could not be extracted: "+err.Error(), t0)
+		}
+		ctxs = append(ctxs, keyCtxs...)
+	}
 	work, _ := os.MkdirTemp("", "gocv")
 	defer os.RemoveAll(work)
 	dischargeAll(ctxs, work, secs, requireAll, 10)
